@@ -326,6 +326,106 @@ reg(Spec(
     technique="runtime monitor: outcome + before/after snapshots of every "
               "entry point over systematically constructed grid pairs"))
 
+# ----------------------------------------------------------------------- C13
+
+
+def access_cases(N):
+    return sum(1 + n * (n + 1) // 2 for n in range(2, N + 1))
+
+
+def c13_runs(tier, seed):
+    N = q(tier, 7, 12)
+    return [RunSpec("access", sc, "plain", access_cases(N),
+                    params={"maxn": N}) for sc in ("d", "Q")]
+
+
+reg(Spec(
+    "C13", "support windows form the expected interval algebra over the grid",
+    c13_runs,
+    rule=("exhaustive small scope: every grid size n = 2..N (N = 7 quick, 12 "
+          "thorough), every window of the grid (the empty window plus all "
+          "(start,end) pairs: 29 at n = 7, 79 at n = 12), every ordered pair "
+          "(second operand on the same grid object and on an equal twin) and "
+          "every ordered triple of windows. A window is modelled as the set of "
+          "its grid-point indices: union == hull (the non-empty operand if the "
+          "other is empty), intersection == set intersection as a window, "
+          "commutativity, associativity, idempotence (as windows and as "
+          "Support ==), equality <=> same window or both empty. For every "
+          "window and every index in {0..n+2, 2^63-1, 2^63, 2^64-1-k (k <= "
+          "n+2), 2^64-start+j (j < size)}: relativeFromAbsolute / "
+          "intervalIndexFromAbsolute / absoluteFromRelative are mutually "
+          "inverse on contained indices and report 'not contained' / throw "
+          "otherwise; size, numberOfIntervals, containsIntervals, empty, "
+          "iteration, front/back, at, [] describe the same window. One case = "
+          "one (n, first window); distinct by construction."),
+    required=["pairs", "triples", "index-probes", "index-probes:near-SIZE_MAX",
+              "gridsize:2", "gridsize:7"],
+    assumptions=["scope bound N on the grid size; grid point values are "
+                 "irrelevant to the index algebra (one fixed increasing "
+                 "sequence per size)"],
+    evaluations=["pairs", "triples", "index-probes"],
+    exhaustive=True,
+    technique="runtime monitor: set-model oracle over an exhaustive "
+              "enumeration of windows, pairs, triples and index values"))
+
+# ----------------------------------------------------------------------- C11
+
+
+def c11_runs(tier, seed):
+    # all sequences of length 0..L over a 7-letter alphabet: (7^(L+1)-1)/6
+    L = q(tier, 6, 8)
+    total = (7 ** (L + 1) - 1) // 6
+    per = q(tier, 64, 1024)
+    blocks = (total + per - 1) // per
+    other = q(tier, 1600, 160000)
+    params = {"gridblocks": blocks, "gridpercase": per}
+    return [RunSpec("validate", sc, "plain", blocks + other, params=params)
+            for sc in ("d", "Q")] + [
+        RunSpec("gen", "Q", "plain", q(tier, 4000, 100000)),
+        RunSpec("pool", "d", "plain", q(tier, 160, 10000))]
+
+
+reg(Spec(
+    "C11", "malformed input is rejected at the boundary with BSplineException",
+    c11_runs,
+    rule=("an independent predicate valid(args), written from the statement, "
+          "decides every call; outcome must be 'object' iff valid and every "
+          "refusal must be a BSplineException (a foreign exception type is a "
+          "violation). Grid: ALL sequences of length 0..6 (0..8 thorough) over "
+          "{-inf,-1,0,1,2,NaN,+inf} (exact type: seven rationals) through the "
+          "vector / iterator / shared_ptr / initializer_list constructors and "
+          "as knot vectors, plus sequences of 3..40 points with one defect "
+          "(swap, duplicate, NaN, infinity) at a random position incl. first "
+          "and last, and the null shared_ptr. Support: every (start,end) in "
+          "{0..n+2, 2^64-1-k, 2^63} for n = 2..7. Spline: every coefficient "
+          "count 0..n+1 against every window. Generator: knot vectors of "
+          "length 2..9 with repeats against orders 0..5 and 8 (both sides of "
+          "the bound size >= order+1, member and free function), supplied "
+          "grid equal / differing in four ways. linearCombination: all size "
+          "pairs 0..4 (containers and iterators). Interpolation (orders 1..4, "
+          "a solver stub): all (|x|,|y|) in 0..4 and boundary derivative "
+          "orders 0..order+1 at every array position on FIRST and LAST. "
+          "Distinct by (entry point, arguments)."),
+    required=["grid-vector:valid", "grid-vector:invalid",
+              "grid-initializer-list:valid", "grid-null-shared-ptr:invalid",
+              "generator-knots:valid", "generator-knots:invalid",
+              "generator-order:valid", "generator-order:invalid",
+              "generator-supplied-grid:valid",
+              "generator-supplied-grid:invalid", "support:valid",
+              "support:invalid", "spline-coefficient-count:valid",
+              "spline-coefficient-count:invalid", "linear-combination:valid",
+              "linear-combination:invalid", "interpolate-sizes:valid",
+              "interpolate-sizes:invalid", "interpolate-boundary:valid",
+              "interpolate-boundary:invalid", "interpolate-boundary:node:LAST",
+              "grid-exhaustive-length:6"],
+    assumptions=["Support(k,k) with k > 0 is documented neither way: counted, "
+                 "not judged", "infinities are ordinary ordered values and "
+                 "are accepted as grid points", "a particular error code is "
+                 "not demanded"],
+    evaluations=None, exhaustive=False,
+    technique="runtime monitor: accept-iff-valid oracle over exhaustive "
+              "small sequences and generated argument tuples"))
+
 # ------------------------------------------------- pool machine: C03/10/14/15
 PLACEMENTS = ["EQ", "A_IN_B", "B_IN_A", "PARTIAL_L", "PARTIAL_R", "TOUCH",
               "GAP", "A_EMPTY", "B_EMPTY", "BOTH_EMPTY", "A_POINT", "B_POINT"]
